@@ -38,7 +38,11 @@ FAULTS = [
     ("undefined-operand", "lda zz_nowhere"), ("undefined-operand", "lda.w #zz_nowhere"),
     ("undefined-data", ".dw zz_nowhere"), ("undefined-data", ".db 1, zz_nowhere + 1"), ("undefined-org", "*=zz_nowhere"),
     ("undefined-macro", "zz_nomacro(1, 2)"), ("too-few-arguments", ".macro zz_m(a, b) {\n.db a, b\n}\nzz_m(1)"),
-    ("unsupported-mode", "stz (1),y"), ("unsupported-mode", "jmp 1,x"), ("unsupported-width", "rep.w #0x1234"),
+    ("unsupported-mode", "stz (1),y"), ("unsupported-mode", "jmp 1,x"),
+    # an index register behind a mode that has no indexed form at all, or not this one for the mnemonic
+    ("unsupported-index", "lda #0x10,x"), ("unsupported-index", "ldx.w #0x1234, y"), ("unsupported-index", "rep #0x30,x"),
+    ("unsupported-index", "inc 0x10,y"), ("unsupported-index", "jmp [0x10],x"), ("unsupported-index", "lda.b #1,s"),
+    ("unsupported-index", "sta [0x10],x"), ("unsupported-index", "jsr (0x1234),y"), ("unsupported-width", "rep.w #0x1234"),
     ("unsupported-width", "ldx.l 0x123456"), ("branch-range", "bra zz_far\n.incbin 'pad200.bin'\nzz_far:"),
     ("unmapped-org", "*=0x7d0000\nnop"), ("missing-include", ".include 'zz_missing.s'"),
     ("missing-incbin", ".incbin 'zz_missing.bin'"), ("missing-table", ".table 'zz_missing.tbl'"),
